@@ -328,7 +328,11 @@ func lookup(instr *ssa.Lookup, x, idx value) value {
 		var v value
 		var ok bool
 		if isSym(idx) {
-			idx = symMapKey(x, idx)
+			if _, isStr := idx.(symstr); isStr {
+				idx = symMapKey(x, idx)
+			} else {
+				idx = concKeyT(idx, instr.X.Type().Underlying().(*types.Map).Key())
+			}
 		}
 		switch x := x.(type) {
 		case map[value]value:
@@ -1025,7 +1029,7 @@ func callBuiltin(caller *frame, callpos token.Pos, fn *ssa.Builtin, args []value
 
 	case "delete": // delete(map[K]value, K)
 		if isSym(args[1]) {
-			args[1] = concKey(args[1])
+			args[1] = concKeyT(args[1], fn.Type().(*types.Signature).Params().At(1).Type())
 		}
 		switch m := args[0].(type) {
 		case map[value]value:
